@@ -6,14 +6,14 @@ sd="$1"; shift
 wt=$(mktemp -d /tmp/sv-XXXXXX)
 rmdir "$wt"
 git -C /repo worktree add -q --detach "$wt" HEAD || exit 3
-pkgdir=$(head -1 "$sd/demo_test.go" | sed 's#^// place in: *##' | awk '{print $1}' | sed 's#/*$##')
+pkgdir=$(head -1 "$sd/demo_test.go" | sed -E 's#^// *[Pp]lace( this file)? in: *##' | awk '{print $1}' | sed 's#/*$##')
 cp "$sd/demo_test.go" "$wt/$pkgdir/zz_demo_test.go"
 cd "$wt"
 echo "--- demo on unchanged tree ($pkgdir)"
-go test -mod=mod -vet=off -count=1 -timeout 60m -run 'Test(Seed)?C[0-9][0-9][AB]' "./$pkgdir/" 2>&1 | tail -3
+go test -mod=mod -vet=off -count=1 -timeout 60m -run 'Test(Seed)?C[0-9][0-9](Seed|Demo)?[AB]' "./$pkgdir/" 2>&1 | tail -3
 git apply "$sd/patch.diff" || { echo "PATCH DOES NOT APPLY"; }
 echo "--- demo with patch"
-go test -mod=mod -vet=off -count=1 -timeout 60m -run 'Test(Seed)?C[0-9][0-9][AB]' "./$pkgdir/" 2>&1 | grep -E "^(--- FAIL|FAIL|ok|PASS)" | head -5
+go test -mod=mod -vet=off -count=1 -timeout 60m -run 'Test(Seed)?C[0-9][0-9](Seed|Demo)?[AB]' "./$pkgdir/" 2>&1 | grep -E "^(--- FAIL|FAIL|ok|PASS)" | head -5
 rm "$wt/$pkgdir/zz_demo_test.go"
 for p in "$@"; do
   echo "--- existing tests of $p with patch"
